@@ -290,6 +290,7 @@ pub fn dispatch(line: &str) -> String {
         "BrakingPoints" | "W_Recalc" => <BrakingPointTag as FileEntry>::call(&req),
         "TrainSimBuilder" => <TrainConfigTag as FileEntry>::call(&req),
         "SpeedLimitTrainSim" => <SpeedLimitTrainSimTag as FileEntry>::call(&req),
+        "<free>" if req["calls"][0]["fn"].as_str().unwrap_or("").ends_with("Network as SerdeAPI>::from_file") => <LinkImplTag as FileEntry>::call(&req),
         "<free>" => run_free(&req),
         "Vec<link_impl::Link>" => run::<Vec<crate::track::Link>>(&req, call_links),
         "Vec<Elev>" => run::<Vec<crate::track::Elev>>(&req, call_elevs),
